@@ -659,9 +659,13 @@ theorem refusal_401_stops_the_channel (P : Params) (user stored : Bytes) (c : Co
     self.environ_expansions['ENV_%s' % k] = v` precedes the one call `server_configs_from_parser(parser)`;
     nothing else in `read_config` rebinds or empties either dictionary; `username`/`password` are
     `parser.saneget(section, …, None)`, which expands with `parser.expansions`.  (Parsing the server sections
-    before the merge, or giving the parser a copy, changes one of these facts.) -/
+    before the merge, or giving the parser a copy, changes one of these facts.)  The one write that is not the merge is
+    the restore at the very start of a read (`rc_restores_snapshot_before_read`, since the F53 repair): the dictionary
+    is put back to what it was right before the *previous* read's merge, so every read — not only the first — starts
+    from the constructor's snapshot and sees exactly its own file's `[supervisord] environment=`. -/
 theorem server_sections_parsed_after_environment_merge :
     rc_servers_parsed_after_env_merge = true ∧ rc_parser_shares_expansions = true ∧ rc_other_expansion_writes = [] ∧
+    rc_restores_snapshot_before_read = true ∧
     rc_parser_expansions_src = "self.environ_expansions" ∧
     rc_env_merges = [("section.environment", "self.environ_expansions", "ENV_")] ∧
     rc_server_parse_calls = 1 ∧ rc_server_parse_args = ["parser"] ∧
@@ -698,7 +702,7 @@ theorem merged_lookup (osenv se : Env) (n : Bytes) :
 /-- the dictionary the server sections are expanded from gives every name the file's value -/
 theorem serverExpansions_lookup (osenv se : Env) (n : Bytes) :
     (serverExpansions osenv se).lookup n = fileEnvValue osenv se n := by
-  have h : serverSectionsSeeSupervisordEnv = true := server_sections_parsed_after_environment_merge.2.2.2.2.2.2.2.2.2.2.2.2.2
+  have h : serverSectionsSeeSupervisordEnv = true := server_sections_parsed_after_environment_merge.2.2.2.2.2.2.2.2.2.2.2.2.2.2
   simp only [serverExpansions, h, if_true]
   exact merged_lookup osenv se n
 
